@@ -83,6 +83,7 @@ inductive PStmt where
   | tryCatch (body : PBlock) (cls : String) (handler : PBlock)
                                               -- `try: body except <cls> [as e]: handler`, any body: meaning given by `exec2S` only
   | break_                                    -- `break` (inside a `while_`): meaning given by `exec2S` only
+  | tryFinally (body fin : PBlock)            -- `try: body finally: fin`: meaning given by `exec2S` only
 inductive PBlock where
   | nil
   | cons (s : PStmt) (rest : PBlock)
@@ -381,6 +382,7 @@ def execStmt (M : Meths) (env : Env) : PStmt → Except PErr Flow
   | .while_ _ _ => .error (.unsupported "while")
   | .tryCatch _ _ _ => .error (.unsupported "try")
   | .break_ => .error (.unsupported "break")
+  | .tryFinally _ _ => .error (.unsupported "try/finally")
 def execBlock (M : Meths) (env : Env) : PBlock → Except PErr Flow
   | .nil => .ok (.next env)
   | .cons s rest => do
